@@ -9,7 +9,9 @@ MC_INVS = ['Placement', 'ExactlyOnce', 'ClosedWhenInvocationEnds', 'SameThread',
 TR_INVS = ['ExactlyOnce', 'ClosedWhenInvocationEnds', 'SameThread', 'NothingLeftItems', 'NotBeforeItems']
 # (placement on traces: enforced event by event in Trace_Dispatch!TrEvent - fired = Matching under the configuration in force)
 TRACE_CONSTS = dict(Idents=set(range(1, 13)), Fns=tlc.Lit('{}'), Lines=tlc.Lit('{}'), TpSets=tlc.Lit('{}'),
-                    MaxEvents=1000000, MaxDepth=100000, MaxGen=100000, TopOnly=False)
+                    MaxEvents=1000000, MaxDepth=100000, MaxGen=100000, TopOnly=False,
+                    IdleFramesBlind=True, ReinstallMay=True)       # traces are judged against what the code does; C03 judges them a second
+                                                # time against the property as stated (validate(..., ideal=True))
 
 LINE_MARKS = [('a', 'f_first'), ('a', 'f_second'), ('a', 'f_third'), ('a', 'f_second'), ('a', 'f_call'), ('a', 'f_plain'), ('a', 'f_last'), ('a', 'g_first'), ('a', 'g_last'),
               ('b', 'f_first'), ('b', 'f_last'), ('b', 'g_last'), ('a', 'gen_first'), ('a', 'gen_yield'),
@@ -17,9 +19,10 @@ LINE_MARKS = [('a', 'f_first'), ('a', 'f_second'), ('a', 'f_third'), ('a', 'f_se
 METHODS = [('a', 'f'), ('a', 'g'), ('b', 'f'), ('b', 'g'), ('a', 'gen'), ('a', 'nosuch')]
 
 
-def mc_cfg(top=False, idents=(1, 2), fns='MCFns', tps='MCTpSets', lines=(1, 2), ev=6, depth=2, invs=MC_INVS):
+def mc_cfg(top=False, idents=(1, 2), fns='MCFns', tps='MCTpSets', lines=(1, 2), ev=6, depth=2, invs=MC_INVS, blind=False, reinstall=False):
     return dict(constants=dict(Idents=set(idents), Fns=tlc.Lit('<- ' + fns), Lines=set(lines),
-                               TpSets=tlc.Lit('<- ' + tps), MaxEvents=ev, MaxDepth=depth, MaxGen=2, TopOnly=top),
+                               TpSets=tlc.Lit('<- ' + tps), MaxEvents=ev, MaxDepth=depth, MaxGen=2, TopOnly=top,
+                               IdleFramesBlind=blind, ReinstallMay=reinstall),
                 invariants=invs, properties=['NoMiss', 'NoActionElsewhere'], deadlock=False)
 
 
@@ -101,9 +104,35 @@ def run_scenarios(c, rng, wd, n, span_bias, kind, tagbase, capture=False, curate
     return traces, meta
 
 
-def validate(c, traces, meta, nontrivial):
+def validate(c, traces, meta, nontrivial, ideal=False):
+    """Judge recorded executions with Trace_Dispatch. ideal=True (C03 only): the traces in which the agent was blind for
+    some invocation (it began while no tracepoint was installed) are judged a second time against the property as
+    stated - every event handled; a rejection at an event the agent never saw is the recorded finding."""
     if not traces:
         return
+    if ideal:
+        sub = [i for i, tr in enumerate(traces) if any(e.get('blind') for e in tr[1:])]
+        if sub:
+            consts = dict(TRACE_CONSTS, IdleFramesBlind=False)
+            acc2, prog2, r2 = tlc.validate_traces('Trace_Dispatch', [traces[i] for i in sub], constants=consts,
+                                                  invariants=TR_INVS, timeout=1800)
+            c.states += r2.distinct
+            c.transitions += r2.generated
+            for k, i in enumerate(sub):
+                if k in acc2:
+                    continue
+                at = prog2.get(k, 0)
+                ev = traces[i][at - 1] if 0 < at <= len(traces[i]) else None
+                text = ('%s: a tracepoint is configured for %s but the agent never saw the event: the invocation began '
+                        'while no tracepoint at all was installed (tracepoints %s; plan %s)'
+                        % (meta[i]['kind'], ev, meta[i]['tps'], meta[i]['plan']))
+                if ev is not None and ev.get('blind'):
+                    c.violation(text, None, signature={'placement': 'invocation-began-while-idle'})
+                else:
+                    path = c.save_replay({'direction': 'C2S', 'module': 'Trace_Dispatch', 'meta': meta[i],
+                                          'trace': traces[i], 'ideal': True, 'rejected_at': at})
+                    c.violation('%s (property as stated): trace rejected by Trace_Dispatch at event %d: %s; tracepoints '
+                                '%s; plan %s' % (meta[i]['kind'], at, ev, meta[i]['tps'], meta[i]['plan']), path)
     accepted, progress, r = tlc.validate_traces('Trace_Dispatch', traces, constants=TRACE_CONSTS, invariants=TR_INVS,
                                                 timeout=1800)
     c.states += r.distinct
@@ -242,8 +271,10 @@ def run(c):
               '(fired set = Matching at every event); non-trivial = at least 3 firings')
     c.assumptions = ['tracepoints are installed before the host program starts',
                      'fire_count=-1 / fire_period=0 so that the limiter never interferes (it is C04)']
-    c.mc('MC_Dispatch', mc_cfg(idents=(1,), ev=6), label='1 thread, 6 events',
-         must_cover=['EvCall', 'EvLine', 'EvReturn', 'EvException', 'EvCatch'])
+    c.mc('MC_Dispatch', mc_cfg(idents=(1,), ev=6, reinstall=True), label='1 thread, 6 events, configuration withdrawn and back',
+         must_cover=['EvCall', 'EvLine', 'EvReturn', 'EvException', 'EvCatch', 'Reconfigure'])
+    c.mc_expect_violation('MC_Dispatch', mc_cfg(idents=(1,), ev=4, depth=1, blind=True, reinstall=True), 'deviation IdleFramesBlind',
+                          what='NoMiss')
     if not quick:
         c.mc('MC_Dispatch', mc_cfg(idents=(1, 2), ev=6), label='2 idents, 6 events', timeout=1800)
     # a method tracepoint names a function NAME: every function of that name in the file (here a module-level f and a
@@ -253,10 +284,14 @@ def run(c):
                   [[('a.f', [('call', 'a.kf', [('line',)]), ('call', 'a.f', []), ('call', 'a.kf', [])])],
                    [('a.kf', [('call', 'a.f', [])])], [('a.f', [])]]),
                  ([dict(id=1, kind='method', file='a', name='f', line=0, span='none')],
-                  [[('a.kf', [])], [('a.f', [])], [('a.kf', [])], [('a.f', [])]])]
+                  [[('a.kf', [])], [('a.f', [])], [('a.kf', [])], [('a.f', [])]]),
+                 # the configuration is withdrawn, a function is entered while NOTHING is installed, and the configuration
+                 # comes back while that invocation is still running: its later lines are configured locations
+                 ([dict(id=1, kind='line', file='a', line='f_plain', span='none')],
+                  [[('a.f', [('cfg', 0), ('call', 'a.f', [('cfg', 255), ('line',), ('line',)]), ('line',)])]])]
     traces, meta = run_scenarios(c, rng, wd, 60 if quick else 1500, 0.2, 'placement', 'p', curated=same_name)
     reconfig_race_leg(c, wd, 2, 60 if quick else 3000)
-    validate(c, traces, meta, lambda m: m['firings'] >= 3)
+    validate(c, traces, meta, lambda m: m['firings'] >= 3, ideal=True)
     c.extra['events_judged'] = sum(m['events'] for m in meta)
     c.extra['firings'] = sum(m['firings'] for m in meta)
 
